@@ -98,8 +98,21 @@ JudgeRW(rec) ==
           <<SameParas(cyc[1].r.paras, rec.r0.paras), "read-write-read is not the identity">>,
           <<CyclesStable(cyc, 1), "a write/read cycle changed the document">> >>)
 
+\* a sink that refused one Write: every paragraph whose Encode / WriteTo returned nil is in the sink (the reference reader
+\* finds at least that many paragraphs there); a call that met the refused Write reports an error
+JudgeFault(rec) ==
+    LET nOK == Cardinality({k \in 1..Len(rec.errs) : rec.errs[k] = FALSE})
+        r == RefRead(rec.sink)
+    IN Checks(IF rec.fired THEN "write-refused" ELSE "no-fault",
+       << <<\A k \in 1..Len(rec.errs) : rec.errs[k] \in BOOLEAN, "panic while writing to a failing sink">>,
+          <<Len(rec.errs) = Len(rec.in.paras), "missing steps">>,
+          <<rec.fired => \E k \in 1..Len(rec.errs) : rec.errs[k] = TRUE, "the sink refused a write but every call reported success">>,
+          <<~rec.fired => nOK = Len(rec.in.paras), "writing to a healthy sink failed">>,
+          <<r.wf => Len(r.paras) >= nOK, "fewer paragraphs reached the sink than were reported as written">> >>)
+
 Judge(rec) ==
-    CASE rec.ev = "read" -> JudgeRead(rec)
+    CASE rec.ev = "write_fault" -> JudgeFault(rec)
+      [] rec.ev = "read" -> JudgeRead(rec)
       [] rec.ev = "write" -> JudgeWrite(rec)
       [] rec.ev = "rw" -> JudgeRW(rec)
       [] OTHER -> V(FALSE, "unknown-event", "unknown event")
